@@ -7,7 +7,7 @@
    Witness at the executable (Q) instance; the oracles are constants except the waist position, which is -wavelength
    (any map that depends on the wavelength will do), so every "collinear" contract holds trivially. *)
 From Coq Require Import String List Bool ZArith QArith.
-From SpdVerif Require Import Base.NumOps Spec.ConfigSpec Gen.ConfigTables Model.ConfigTypes Model.Config Model.NumInst.
+From SpdVerif Require Import Base.NumOps Spec.ConfigSpec Gen.ConfigTables Gen.ConfigSites Model.ConfigTypes Model.Config Model.NumInst.
 Import ListNotations.
 Local Open Scope Q_scope.
 
@@ -25,18 +25,18 @@ Definition s_w : spdc Q :=
      s_pump := mk_beam Extraordinary (775 # 1000000000);
      s_bandwidth := 1; s_power := 1; s_threshold := 1 # 100; s_pp := PolOff; s_zs := 0; s_zi := 0; s_deff := 1 |}.
 
-Definition once := try_as_optimum Q_ops K_w (1 # 1000000000000) s_w.
+Definition once := try_as_optimum Q_ops K_w (1 # 1000000000000) optimum_idler_sees_old_poling optimum_waist_sees_old_idler s_w.
 
 Lemma C20_idempotent_unconditional_refuted :
   exists s1 nf1 s2 nf2,
-    try_as_optimum Q_ops K_w (1 # 1000000000000) s_w = Ok (s1, nf1) /\
-    try_as_optimum Q_ops K_w (1 # 1000000000000) s1 = Ok (s2, nf2) /\
+    try_as_optimum Q_ops K_w (1 # 1000000000000) optimum_idler_sees_old_poling optimum_waist_sees_old_idler s_w = Ok (s1, nf1) /\
+    try_as_optimum Q_ops K_w (1 # 1000000000000) optimum_idler_sees_old_poling optimum_waist_sees_old_idler s1 = Ok (s2, nf2) /\
     Qeq_bool (s_zi s1) (s_zi s2) = false /\
     (* first: from the old idler's 1500 nm; second: from the energy-conserving 1550 nm *)
     Qeq_bool (s_zi s1) (- (1500 # 1000000000)) = true /\ Qeq_bool (s_zi s2) (- (1550 # 1000000000)) = true.
 Proof.
   destruct once as [[s1 nf1] | |] eqn:H1; try (vm_compute in H1; discriminate).
-  destruct (try_as_optimum Q_ops K_w (1 # 1000000000000) s1) as [[s2 nf2] | |] eqn:H2.
+  destruct (try_as_optimum Q_ops K_w (1 # 1000000000000) optimum_idler_sees_old_poling optimum_waist_sees_old_idler s1) as [[s2 nf2] | |] eqn:H2.
   - exists s1, nf1, s2, nf2. split; [exact H1 |]. split; [exact H2 |].
     vm_compute in H1. inversion H1. subst s1. vm_compute in H2. inversion H2. subst s2. vm_compute. auto.
   - vm_compute in H1. inversion H1. subst. vm_compute in H2. discriminate.
